@@ -314,6 +314,10 @@ func (self *linkedPairs) Get(key string) (*Pair, int) {
 		i, ok := self.index[caching.StrHash(key)]
 		if ok {
 			n := self.At(i)
+			if n == nil {
+				// stale entry: the pair was unset and the slot popped since; look the key up the slow way
+				goto linear_search
+			}
 			if n.Key == key {
 				return n, i
 			}
